@@ -10,6 +10,8 @@ def monitor(s, t):
     """C01 and nothing else: at no observed instant are more than max_concurrent_calls requests inside the inner service.
     Observed instants: after every event (the inner service's own in-flight counter) and at every start of an inner
     call -- inside a poll or anywhere else -- (the count that call saw, itself included)."""
+    if panicked(s, t):
+        return panicked(s, t)
     d = decode(s, t)
     if d is None:
         return "malformed or panicking run: %s" % t[:10]
